@@ -271,7 +271,7 @@ def run(prog, chk):
                 continue      # a copy that is not evaluated (argument expression of an inlined helper, substituted at its uses)
             ty = n["t"].replace("Server::Private::", "").rstrip(" *")
             atoms = fin.dominating_atoms(run_, run_.node_pos(i))
-            flags = [m.group(1) for a in atoms if a[0] != "case" and a[1] for m in [re.search(r"pollEvent\.flags & Socket::Poll::(\w+)", fin.key(run_, a[0]))] if m]
+            flags = [m.group(1) for a in atoms if a[0] != "case" and a[1] for m in [re.search(r"pollEvent\.flags & Socket::Poll::(\w+)", q.no_casts(q.xr(run_, a[0])))] if m]
             casts += 1
             if flags and all(want.get(fl) == {ty} for fl in flags[-1:]):
                 chk.ok("C14.T4", run_, "(%s*)pollEvent.socket under %s" % (ty, flags[-1]), run_.where(i), "dominating flag test", evals=len(atoms))
@@ -293,8 +293,30 @@ def run(prog, chk):
         if not bad:
             chk.ok("C14.T5", f, "%d callback sites: the object is not used afterwards" % len(cbs), "%s:%s" % (f.file, f.line), "reachability from each callback to later uses", evals=len(cbs))
     act = [c for c, root, t in callback_calls(run_) if "onActivated" in t]
-    ins = [c for c in q.calls(run_) if re.search(r"_queuedTimers\.insert\(timer->executionTime, timer\)", run_.r(c))]
-    adv = [s.node for s in q.stores(run_) if re.search(r"timer->executionTime$", run_.r(s.lhs)) and s.op == "+=" and "timer->interval" in run_.r(s.rhs)]
+    # the due time moves on by the interval (`+=`, or `= executionTime + interval`, possibly through a local), and the timer is queued again
+    # under that new due time - whatever names carry the value
+    defs_r = q.local_defs(run_)
+    adv = []
+    newval = set()
+    for s_ in q.stores(run_):
+        if not re.search(r"timer->executionTime$", run_.r(s_.lhs)) or s_.rhs is None:
+            continue
+        rn_ = run_.nodes[run_.strip(s_.rhs)]
+        ini_ = q.single_def(run_, rn_["ref"]["id"], defs_r) if rn_["k"] == "DeclRefExpr" and rn_["ref"].get("dk") == "local" else None
+        rt_ = q.no_casts(run_.r(ini_ if ini_ is not None else s_.rhs)).replace(" ", "")
+        if (s_.op == "+=" and rt_ == "timer->interval") or (s_.op == "=" and rt_.strip("()") in ("timer->executionTime+timer->interval", "timer->interval+timer->executionTime")):
+            adv.append(s_.node)
+            newval.add(q.no_casts(run_.r(s_.rhs)))
+    ins = []
+    for c in q.calls(run_):
+        if not re.search(r"_queuedTimers\.insert\(", run_.r(c)):
+            continue
+        a_ = q.call_args(run_, c)
+        if len(a_) != 2 or q.no_casts(run_.r(a_[1])) != "timer":
+            continue
+        kt_ = q.no_casts(run_.r(a_[0]))
+        if kt_ == "timer->executionTime" or kt_ in newval:
+            ins.append(c)
     if act and ins and adv and all(q.precedes_always(run_, ins, a) for a in act) and all(q.reaches(run_, x, y) for x in adv for y in ins):
         chk.ok("C14.T5", run_, "timer advanced by its interval and re-queued before onActivated", run_.where(act[0]), "ORD", evals=3)
     else:
